@@ -321,3 +321,44 @@ Proof.
   destruct (N.eqb r r' && (0 <? amt)) eqn:E; [|lia].
   apply andb_true_iff in E. destruct E as [_ E]. assert (0 <= amt * bips / 10000) by (apply Z.div_pos; nia). lia.
 Qed.
+
+(** * The exchange's share of a multi-denom fee *)
+
+Lemma exchange_split_coins_In dflt tbl coins d x :
+  In (d, x) (exchange_split_coins dflt tbl coins) <->
+  exists a, In (d, a) coins /\ a <> 0 /\ split_for dflt tbl d <> 0 /\ x = exchange_split a (split_for dflt tbl d).
+Proof.
+  induction coins as [|[d' a'] t IH]; cbn [exchange_split_coins].
+  - split; [intros []|intros (a & [] & _)].
+  - destruct ((a' =? 0) || (split_for dflt tbl d' =? 0)) eqn:E.
+    + rewrite IH. split.
+      * intros (a & Hin & H). exists a. split; [right; exact Hin|exact H].
+      * intros (a & [Heq|Hin] & Ha & Hs & Hx).
+        -- inversion Heq; subst. apply orb_true_iff in E. destruct E as [E|E]; apply Z.eqb_eq in E; contradiction.
+        -- exists a. tauto.
+    + apply orb_false_iff in E. destruct E as [Ea Es]. apply Z.eqb_neq in Ea. apply Z.eqb_neq in Es.
+      cbn [In]. rewrite IH. split.
+      * intros [Heq|(a & Hin & H)].
+        -- inversion Heq; subst. exists a'. split; [left; reflexivity|]. tauto.
+        -- exists a. split; [right; exact Hin|exact H].
+      * intros (a & [Heq|Hin] & Ha & Hs & Hx).
+        -- inversion Heq; subst. left. reflexivity.
+        -- right. exists a. tauto.
+Qed.
+
+(** Every entry of the share is the documented ceiling of its own coin and never more than it. *)
+Lemma exchange_split_coins_sound dflt tbl coins d x :
+  0 <= dflt <= 10000 -> Forall (fun e => 0 <= snd e <= 10000) tbl -> Forall (fun c => 0 <= snd c) coins ->
+  In (d, x) (exchange_split_coins dflt tbl coins) ->
+  exists a, In (d, a) coins /\
+    10000 * (x - 1) < a * split_for dflt tbl d <= 10000 * x /\ 0 < x <= a.
+Proof.
+  intros Hd Ht Hc Hin. apply exchange_split_coins_In in Hin. destruct Hin as (a & Hin & Ha & Hs & ->).
+  exists a. split; [exact Hin|].
+  assert (0 <= split_for dflt tbl d <= 10000) as Hsp.
+  { unfold split_for. destruct (find _ tbl) as [[d0 s]|] eqn:F; [|exact Hd].
+    apply find_some in F. destruct F as [F _]. rewrite Forall_forall in Ht. exact (Ht _ F). }
+  rewrite Forall_forall in Hc. pose proof (Hc _ Hin) as Ha0. cbn [snd] in Ha0.
+  pose proof (exchange_split_ceiling a (split_for dflt tbl d) Ha0 Hsp) as H. cbv zeta in H.
+  destruct H as [Hceil Hle]. split; [exact Hceil|]. split; [nia|lia].
+Qed.
